@@ -118,6 +118,39 @@ func vBuildScript(n int, dmax int) []vRefFrame {
 	return script
 }
 
+// vRecvSrv / vRecvCli: under the engine the real RecvMsg (proto.Unmarshal is
+// modelled as attaching the bytes); in a native replay the symbolic payload is
+// not valid protobuf, so the same steps are taken without the decoding.
+func vRecvSrv(st *tunnelServerStream, m *wrapperspb.BytesValue) error {
+	if !verifNative() {
+		return st.RecvMsg(m)
+	}
+	data, ok, err := st.readMsg()
+	if err != nil {
+		if !ok {
+			st.finishStream(err)
+		}
+		return err
+	}
+	m.Value = data
+	return nil
+}
+
+func vRecvCli(st *tunnelClientStream, m *wrapperspb.BytesValue) error {
+	if !verifNative() {
+		return st.RecvMsg(m)
+	}
+	data, ok, err := st.readMsg()
+	if err != nil {
+		if !ok {
+			st.cancelStream(err)
+		}
+		return err
+	}
+	m.Value = data
+	return nil
+}
+
 // S-READ-SRV (C01 C04 C07 C09 C16): the server stream's RecvMsg over every
 // script of queue results (envelopes, continuations, foreign frames) and every
 // way the queue can end: half-closed and drained, or cancelled (deadline,
@@ -161,7 +194,7 @@ func verifH_ReadSrv() {
 	pos := 0
 	for c := 0; c < calls; c++ {
 		m := &wrapperspb.BytesValue{}
-		err := st.RecvMsg(m)
+		err := vRecvSrv(st, m)
 		want, next, ok, bad := vRefNext(script, pos)
 		if err == nil {
 			verifCover("message")
@@ -201,7 +234,7 @@ func verifH_ReadSrv() {
 			}
 		}
 		// errors are sticky
-		err2 := st.RecvMsg(&wrapperspb.BytesValue{})
+		err2 := vRecvSrv(st, &wrapperspb.BytesValue{})
 		verifAssert(err2 != nil, "C01+C16.no-message-after-an-error")
 		break
 	}
@@ -248,7 +281,7 @@ func verifH_ReadCli() {
 	pos := 0
 	for k := 0; k < calls; k++ {
 		m := &wrapperspb.BytesValue{}
-		err := st.RecvMsg(m)
+		err := vRecvCli(st, m)
 		want, next, ok, bad := vRefNext(script, pos)
 		if err == nil {
 			verifCover("message")
@@ -285,7 +318,7 @@ func verifH_ReadCli() {
 				verifAssert(status.Code(err) == codes.Internal, "C16.second-response-is-internal-error")
 			}
 		}
-		err2 := st.RecvMsg(&wrapperspb.BytesValue{})
+		err2 := vRecvCli(st, &wrapperspb.BytesValue{})
 		verifAssert(err2 != nil, "C01+C16.cli-no-message-after-an-error")
 		break
 	}
